@@ -10,19 +10,19 @@ VMT = 'yarel::vm::Vm'
 
 def run(rep):
     w = rep.world('dev')
-    n1(rep, w)
-    n2(rep, w)
-    c10.v2(rep, w)
-    n4(rep, w)
+    rep.guard(n1, rep, w)
+    rep.guard(n2, rep, w)
+    rep.guard(c10.v2, rep, w)
+    rep.guard(n4, rep, w)
     import c06
-    c06.s1(rep, w)      # teardown of a failed run must not leave closures pointing into the discarded stack
+    rep.guard(c06.s1, rep, w)      # teardown of a failed run must not leave closures pointing into the discarded stack
     import c14
-    c14.m4(rep, w)      # a snippet whose import fails to load/compile leaves no half-registered module behind
-    c14.m4b(rep, w)
-    n5(rep, w)
-    n6(rep, w)
+    rep.guard(c14.m4, rep, w)      # a snippet whose import fails to load/compile leaves no half-registered module behind
+    rep.guard(c14.m4b, rep, w)
+    rep.guard(n5, rep, w)
+    rep.guard(n6, rep, w)
     import c09
-    c09.f5(rep, w)     # a fiber killed by a failed run is reported as finished by later snippets
+    rep.guard(c09.f5, rep, w)     # a fiber killed by a failed run is reported as finished by later snippets
 
 
 def vm_field_writes(w, f):
